@@ -581,6 +581,9 @@ fn drive_run(t: &mut Trace, d: &mut Drv, run: usize, len: usize) {
     t.step(ev);
     let types: &[&str] = if small { &["D", "c1", "c2", "w1"] } else { &TYPES };
     let mut nm = 0;
+    let mut return_pl: Option<Vec<String>> = None;
+    // definitions of rules that were removed, for re-adding them later
+    let mut grave: Vec<(String, Vec<String>, Vec<String>)> = Vec::new();
     for i in 0..len {
         let o = sys.obs();
         let rules: Vec<Value> = o["rules"].as_array().unwrap().clone();
@@ -626,10 +629,27 @@ fn drive_run(t: &mut Trace, d: &mut Drv, run: usize, len: usize) {
                     _ => d.some(&POLS[..npol], if small { 0.3 } else { 0.12 }),
                 };
                 nm += 1;
-                with(mkop("add_rule"), &[("ct", json!(pick(&mut d.r, types))), ("vu", json!(pick(&mut d.r, &vus))),
+                let mut ct = pick(&mut d.r, types).to_string();
+                if flavour < 5 && !grave.is_empty() && d.r.gen_bool(0.3) {
+                    // re-add a rule that was removed (possibly under another type: a fresh combination)
+                    let g = pick(&mut d.r, &grave).clone();
+                    if d.r.gen_bool(0.8) {
+                        ct = g.0;
+                    }
+                    sg = g.1;
+                    return_pl = Some(g.2);
+                }
+                let pl = return_pl.take().unwrap_or(pl);
+                with(mkop("add_rule"), &[("ct", json!(ct)), ("vu", json!(pick(&mut d.r, &vus))),
                                          ("name", json!(format!("r{nm}"))), ("signers", json!(sg)), ("pols", json!(pl))])
             }
-            "rm_rule" => with(mkop("rm_rule"), &[("id", json!(anyid(d)))]),
+            "rm_rule" => {
+                let id = anyid(d);
+                if let Some(r) = rules.iter().find(|r| r["id"].as_i64() == Some(id)) {
+                    grave.push((st(r, "ct").to_string(), arr(r, "signers"), arr(r, "pols")));
+                }
+                with(mkop("rm_rule"), &[("id", json!(id))])
+            }
             "upd_name" => {
                 nm += 1;
                 with(mkop("upd_name"), &[("id", json!(anyid(d))), ("name", json!(format!("n{nm}")))])
